@@ -626,12 +626,13 @@ func (r *Resolver) ResolveGraphQLDeferResponse(ctx *Context, response *GraphQLDe
 				// zero writes hasNext:false.
 				outstanding := int64(len(liveTop))
 				dc := &deferContext{
-					response:   response,
-					info:       response.Response.Info,
-					db:         db,
-					resolvable: resolvable,
-					writer:     writer,
-					arena:      resolveArena.Arena,
+					response:      response,
+					info:          response.Response.Info,
+					db:            db,
+					resolvable:    resolvable,
+					writer:        writer,
+					arena:         resolveArena.Arena,
+					authorization: authorization,
 				}
 				if err := r.resolveDeferTree(dc, ctx, liveTree, &outstanding); err != nil {
 					return nil, err
@@ -655,6 +656,9 @@ type deferContext struct {
 	// arena backs every defer group's loader. It is shared across groups; every
 	// allocation from it is serialised by db's lock (see resolveDeferSingle).
 	arena arena.Arena
+	// authorization holds the request's field authorization decisions (seeded up front in
+	// pre-fetch mode); every defer group's loader consults it to prune denied fetches.
+	authorization *FieldAuthorization
 }
 
 // resolveDeferSingle fetches and renders a single deferred fragment, announcing
@@ -675,7 +679,10 @@ func (r *Resolver) resolveDeferSingle(dc *deferContext, ctx *Context, group *Def
 	// the arena only in its prepare and merge phases, both of which hold
 	// dc.db.Lock(), and the off-lock network phase allocates nothing from it. The
 	// lock therefore serialises every arena allocation across all groups.
-	groupLoader := NewLoader(r.options, r.allowedErrorExtensionFields, r.allowedErrorFields, r.subgraphRequestSingleFlight, dc.arena, dc.db, nil)
+	// The group loader shares the request's seeded authorization decisions, so that pre-fetch field
+	// authorization prunes denied deferred fetches exactly like the initial ones. The decisions are only
+	// read by the loader, in its prepare phase, which holds dc.db's lock like the renders do.
+	groupLoader := NewLoader(r.options, r.allowedErrorExtensionFields, r.allowedErrorFields, r.subgraphRequestSingleFlight, dc.arena, dc.db, dc.authorization)
 	groupLoader.Init(ctx, dc.info) // fresh taintedObjs; errors=nil
 
 	if fetchErr := groupLoader.ResolveFetchNode(group.Fetches); fetchErr != nil {
